@@ -125,7 +125,7 @@ def gen_case(rng):
                 if x not in ds:
                     ds.append(x)
             known_depths += [x for x in ds if x not in known_depths]
-            adds.append({"kind": "depth", "depth": ds})
+            adds.append({"kind": "depth", "depth": ds, "text": rng.random() < 0.3})      # a log may hold text (lithology codes)
         else:
             fs = sorted(rng.randrange(0, 200) / 4.0 for _ in range(m))
             rows_ = [[f, f + rng.choice([0.25, 1.0, 5.0])] for f in fs]
@@ -210,8 +210,14 @@ def run_case(ctx, ws, case, idx):
                 # (it may adjust the arrays it is given to the depths it matched)
                 ds = np.array(add["depth"], dtype=float)
                 vals = ds * 10.0 + k
-                truth[name] = ("depth", dict(zip(ds.tolist(), vals.tolist())))
-                entries[name] = {"depth": ds.copy(), "values": vals.copy()}
+                if add.get("text"):
+                    tv = np.array([f"t{int(round(x * 4))}_{k}" for x in ds])
+                    truth[name] = ("depth-text", dict(zip(ds.tolist(), tv.tolist())))
+                    entries[name] = {"depth": ds.copy(), "values": tv.copy()}
+                    ctx.count("add:depth-text")
+                else:
+                    truth[name] = ("depth", dict(zip(ds.tolist(), vals.tolist())))
+                    entries[name] = {"depth": ds.copy(), "values": vals.copy()}
             else:
                 ft = np.array(add["from_to"], dtype=float)
                 vals = ft[:, 0] * 10.0 + k + 0.5
@@ -223,7 +229,10 @@ def run_case(ctx, ws, case, idx):
             dh.add_data(entries)
         except Exception as e:  # noqa: BLE001
             kinds = "+".join(case["adds"][k]["kind"] for k in batch)
-            failures.append((f"add_data of {kinds} raised {type(e).__name__}: {str(e)[:80]}", f"C18:add-raises-{type(e).__name__}"))
+            text_collocated = (isinstance(e, ValueError) and "could not convert string to float" in str(e)
+                               and any(case["adds"][k].get("text") for k in batch))
+            failures.append((f"add_data of {kinds} raised {type(e).__name__}: {str(e)[:80]}",
+                             f"C18:add-raises-{type(e).__name__}" + (":text-log-at-existing-depth" if text_collocated else "")))
             break
         kinds = sorted({case["adds"][k]["kind"] for k in batch})
         failures += check_data(dh, truth, f"after the call adding {batch} ({'+'.join(kinds)})")
@@ -245,6 +254,15 @@ def check_data(dh, truth, tag):
             if len(dv) > len(verts) or not np.allclose(verts[: len(dv)][ok], exp, atol=1e-6):
                 out.append((f"vertices of depth data are not at the position of their depth {tag}", "C18:vertex-not-at-depth"))
         for name, (kind, m) in truth.items():
+            if kind == "depth-text":
+                tvals = dh.get_data(name)[0].values
+                tvals = [] if tvals is None else [x.decode() if isinstance(x, bytes) else str(x) for x in np.atleast_1d(tvals)]
+                for depth, v in m.items():
+                    hit = np.where(np.abs(dv[: len(tvals)] - depth) < 1e-3)[0]
+                    if not any(tvals[h] == v for h in hit):
+                        out.append((f"{name}: text value {v!r} is no longer attached to depth {depth} {tag}", "C18:value-detached:text"))
+                        break
+                continue
             if kind != "depth":
                 continue
             d = dh.get_data(name)[0]
